@@ -2,6 +2,7 @@ package props
 
 import (
 	"crypto/elliptic"
+	"errors"
 	"fmt"
 	"io"
 
@@ -301,6 +302,10 @@ func c06Impl(cs *vrt.Case, r *vrt.Rng) {
 		} else {
 			cs.Inconc("harness panic " + pi.Value + "\n" + pi.Stack)
 		}
+		return
+	}
+	if errors.Is(ra.err, errDeadlock) || errors.Is(rb.err, errDeadlock) {
+		cs.Violate("C06|no-termination|"+name, fmt.Sprintf("honest OT does not terminate (quiescent deadlock): sender=%v receiver=%v", ra.err, rb.err), map[string]any{"case": desc})
 		return
 	}
 	if ra.err != nil || rb.err != nil {
